@@ -167,7 +167,20 @@ class WebProcessorSession(BaseProcessorSession):
                 url_record.url_info.scheme == 'http':
             return
 
-        request.fields['Referer'] = url_record.parent_url
+        referrer = url_record.parent_url
+        parent_url_info = URLInfo.parse(referrer)
+
+        if parent_url_info.username or parent_url_info.password:
+            # Never disclose the credentials of the referring page.
+            # rfc7231 section 5.5.2.
+            referrer = '{}://{}{}'.format(
+                parent_url_info.scheme, parent_url_info.hostname_with_port,
+                parent_url_info.path)
+
+            if parent_url_info.query:
+                referrer += '?' + parent_url_info.query
+
+        request.fields['Referer'] = referrer
 
     @asyncio.coroutine
     def process(self):
